@@ -337,7 +337,7 @@ def cal_hesse_correct(fcn, params={}, corr_params={}, force_pos=True):
                 nll_mm = fcn(x)
                 x[i] += 2 * _epsilon
                 gp = (nll_pp - nll_mp) / 3 / _epsilon
-                gm = (nll_mp - nll_mm) / 3 / _epsilon
+                gm = (nll_pm - nll_mm) / 3 / _epsilon
                 new_hi = (gp - gm) / _epsilon
                 h[i, i] = new_hi
             else:
